@@ -46,6 +46,8 @@ C15(pre, e) ==
 C18(pre, e) == Completed(e) => PureOK(e) /\ (~e.mut => e.post = pre)
 
 Obl(p, pre, e) ==
+  IF e.op = "NewBad" THEN (p = "C17" => SilentOK(e))      \* a documented constructor precondition: must panic (Generic)
+  ELSE
   CASE p = "C05" -> C05(pre, e)
     [] p = "C15" -> C15(pre, e)
     [] p = "C17" -> SilentOK(e)
